@@ -344,25 +344,30 @@ theorem good_mkAddrs {d : Disk} {m : Mem} (hg : Good d m) (acct br : Nat) (priv 
     (fun sc k id h => by rw [k1] at h; exact h) (fun sc a ai h => Or.inl ⟨ai, by rw [k1] at h; exact h, rfl⟩)
 
 /-- the real memory after caching the new addresses and advancing the index once agrees, as far as the caches are
-looked up, with the ghost memory -/
-theorem real_eq_ghost (sc acct : Nat) (internal : Bool) (w : Bool) (es : List Dou) (m : Mem) (info : AcctInfo)
+looked up, with the ghost memory (the real base `mR` may already hold other objects under the new keys) -/
+theorem real_eq_ghost (sc acct : Nat) (internal : Bool) (w : Bool) (es : List Dou) (mR mG : Mem) (info : AcctInfo)
     (last : Dou) (hl : es.getLast? = some last)
-    (hcs : Consec m.heap m.heapN acct (brOf internal) (nextOf info internal) es) (n : Nat)
-    (hn : n = nextOf info internal + es.length) :
-    let real := (es.foldl (cacheNew sc w) m).updScope sc fun s =>
+    (hcs : Consec mG.heap mG.heapN acct (brOf internal) (nextOf info internal) es) (n : Nat)
+    (hn : n = nextOf info internal + es.length)
+    (b1 : mR.heap = mG.heap) (b2 : mR.heapN = mG.heapN) (b3 : mR.syncedTo = mG.syncedTo)
+    (b4 : mR.watchOnly = mG.watchOnly)
+    (b5 : ∀ sc', (mR.scopes sc').acctInfo = (mG.scopes sc').acctInfo)
+    (b6 : ∀ sc', sc' ≠ sc → (mR.scopes sc').addrs = (mG.scopes sc').addrs)
+    (b7 : ∀ k, (¬ ∃ e ∈ es, k = .chain e.acct e.br e.idx) → aget (mR.scopes sc).addrs k = aget (mG.scopes sc).addrs k) :
+    let real := (es.foldl (cacheNew sc w) mR).updScope sc fun s =>
       { s with acctInfo := aset s.acctInfo acct (setNext info internal n last.obj) }
-    let ghost := (issueAll sc acct internal es info m).1
+    let ghost := (issueAll sc acct internal es info mG).1
     (∀ sc' a, aget (real.scopes sc').acctInfo a = aget (ghost.scopes sc').acctInfo a) ∧
     (∀ sc' k, aget (real.scopes sc').addrs k = aget (ghost.scopes sc').addrs k) ∧
     real.heap = ghost.heap ∧ real.heapN = ghost.heapN ∧ real.syncedTo = ghost.syncedTo ∧
     real.watchOnly = ghost.watchOnly := by
   have hne : es ≠ [] := by intro h; rw [h] at hl; simp at hl
-  obtain ⟨c1, c2, c3, c4, c5, c6, c7⟩ := cacheNew_spec sc w es m
-  obtain ⟨g1, g2, g3, g4, g5, g6, g7, g8, g9⟩ := issueAll_spec sc acct internal es m info hcs
+  obtain ⟨c1, c2, c3, c4, c5, c6, c7⟩ := cacheNew_spec sc w es mR
+  obtain ⟨g1, g2, g3, g4, g5, g6, g7, g8, g9⟩ := issueAll_spec sc acct internal es mG info hcs
   dsimp only at c1 c2 c3 c4 c5 c6 c7 g1 g2 g3 g4 g5 g6 g7 g8 g9 ⊢
   have hfin := g9 last hl
-  refine ⟨?_, ?_, by simp [Mem.updScope, c1, g1], by simp [Mem.updScope, c2, g2], by simp [Mem.updScope, c3, g3],
-    by simp [Mem.updScope, c4, g4]⟩
+  refine ⟨?_, ?_, by simp [Mem.updScope, c1, g1, b1], by simp [Mem.updScope, c2, g2, b2],
+    by simp [Mem.updScope, c3, g3, b3], by simp [Mem.updScope, c4, g4, b4]⟩
   · intro sc' a
     by_cases hsc : sc' = sc
     · subst hsc
@@ -370,12 +375,15 @@ theorem real_eq_ghost (sc acct : Nat) (internal : Bool) (w : Bool) (es : List Do
       rw [aget_aset]
       by_cases ha : a = acct
       · subst ha; simp only [if_true]; rw [g8 hne, hfin, hn]
-      · simp only [ha, if_false]; rw [c6, g7 a ha]
-    · simp only [Mem.updScope, hsc, if_false]; rw [c5 sc' hsc, g5 sc' hsc]
+      · simp only [ha, if_false]; rw [c6, g7 a ha, b5]
+    · simp only [Mem.updScope, hsc, if_false]; rw [c5 sc' hsc, g5 sc' hsc, b5]
   · intro sc' k
     by_cases hsc : sc' = sc
     · subst hsc; simp only [Mem.updScope, if_true]; rw [c7, g6]
-    · simp only [Mem.updScope, hsc, if_false]; rw [c5 sc' hsc, g5 sc' hsc]
+      by_cases hk : ∃ e ∈ es, k = .chain e.acct e.br e.idx
+      · exact aget_foldl_aset_mem es (fun e => e.obj) _ _ k hk
+      · exact aget_foldl_aset_congr es (fun e => e.obj) _ _ k (b7 k hk)
+    · simp only [Mem.updScope, hsc, if_false]; rw [c5 sc' hsc, g5 sc' hsc, b6 sc' hsc]
 
 theorem good_extend {d : Disk} {m : Mem} (cfg : Cfg) (hg : Good d m) (hw : DiskWF d) (sc acct lastIdx : Nat)
     (internal : Bool) :
@@ -418,8 +426,211 @@ theorem good_extend {d : Disk} {m : Mem} (cfg : Cfg) (hg : Good d m) (hw : DiskW
           | some last =>
             simp only
             refine ⟨fun _ => ⟨?_, w2⟩, fun h => by simp at h⟩
-            obtain ⟨e1, e2, e3, e4, e5, e6⟩ := real_eq_ghost sc acct internal w r.2 r.1 ai last hlast k7 (lastIdx + 1)
-              (by rw [k5]; rename_i h1 _ _; omega)
+            obtain ⟨e1, e2, e3, e4, e5, e6⟩ := real_eq_ghost sc acct internal w r.2 r.1 r.1 ai last hlast k7 (lastIdx + 1)
+              (by rw [k5]; rename_i h1 _ _; omega) rfl rfl rfl rfl (fun _ => rfl) (fun _ _ => rfl) (fun _ _ => rfl)
             exact good_of_aget_eq g2 e1 e2 e3 e4 e5 e6
+
+/-! ### nextAddresses: the write-and-read-back loop, then the OnCommit closure -/
+
+theorem Consec.mono {H H' : Nat → Obj} {N N' acct br : Nat} (hN : N ≤ N')
+    (hH : ∀ id, id < N → (H' id).key = (H id).key ∧ (H' id).acct = (H id).acct) :
+    ∀ {start : Nat} {es : List Dou}, Consec H N acct br start es → Consec H' N' acct br start es := by
+  intro start es h
+  induction h with
+  | nil s => exact Consec.nil s
+  | cons h1 h2 h3 h4 h5 h6 _ ih =>
+    exact Consec.cons h1 h2 h3 (Nat.lt_of_lt_of_le h4 hN) (by rw [(hH _ h4).1]; exact h5) (by rw [(hH _ h4).2]; exact h6) ih
+
+theorem Consec.acct_eq {H : Nat → Obj} {N acct br : Nat} : ∀ {start : Nat} {es : List Dou},
+    Consec H N acct br start es → ∀ e ∈ es, e.acct = acct ∧ e.br = br := by
+  intro start es h
+  induction h with
+  | nil s => intro e he; cases he
+  | cons h1 h2 _ _ _ _ _ ih =>
+    intro e he
+    rcases List.mem_cons.mp he with rfl | he
+    · exact ⟨h1, h2⟩
+    · exact ih e he
+
+/-- insert object `id` under key `k` into the address cache of scope `sc` -/
+def cacheObj (m : Mem) (sc : Nat) (k : AKey) (id : Nat) : Mem :=
+  m.updScope sc fun s => { s with addrs := aset s.addrs k id }
+
+/-- with the account already cached, the loop of nextAddresses cannot fail; it writes what `putAll` writes, caches
+a (second) object for every new key and touches nothing else that the queries look at -/
+theorem putAndLoad_spec (sc acct : Nat) (es : List Dou) :
+    ∀ (d : Disk) (m : Mem) (info : AcctInfo) (row : AcctRow),
+      aget (m.scopes sc).acctInfo acct = some info → aget (d.scopes sc).accts acct = some row →
+      (∀ e ∈ es, e.acct = acct) →
+      ∃ d2 m2, putAndLoad sc es d m = (d2, m2, none) ∧ putAll sc es d = some d2 ∧
+        (∀ sc', (m2.scopes sc').acctInfo = (m.scopes sc').acctInfo) ∧
+        (∀ id, id < m.heapN → m2.heap id = m.heap id) ∧ m.heapN ≤ m2.heapN ∧
+        m2.syncedTo = m.syncedTo ∧ Scal m2 = Scal m ∧
+        (∀ sc', sc' ≠ sc → (m2.scopes sc').addrs = (m.scopes sc').addrs) ∧
+        (∀ k, (¬ ∃ e ∈ es, k = .chain e.acct e.br e.idx) →
+          aget (m2.scopes sc).addrs k = aget (m.scopes sc).addrs k) := by
+  induction es with
+  | nil =>
+    intro d m info row _ _ _
+    exact ⟨d, m, rfl, rfl, fun _ => rfl, fun _ _ => rfl, Nat.le_refl _, rfl, rfl, fun _ _ => rfl, fun _ _ => rfl⟩
+  | cons e es ih =>
+    intro d m info row hc hrow hes
+    have hea := hes e List.mem_cons_self
+    have hp := putChained_some (br := e.br) (idx := e.idx) hrow
+    generalize hd1 : (d.updScope sc fun s =>
+      { s with addrs := aset s.addrs (.chain acct e.br e.idx) .chain, accts := aset s.accts acct (bumpRow row e.br e.idx) }) = d1 at hp
+    have hrow1 : aget (d1.scopes sc).accts acct = some (bumpRow row e.br e.idx) := by
+      subst hd1; rw [updScope_scopes]; simp [aget_aset_self]
+    have hadr1 : aget (d1.scopes sc).addrs (.chain acct e.br e.idx) = some .chain := by
+      subst hd1; rw [updScope_scopes]; simp [aget_aset_self]
+    -- the read-back
+    generalize hpv : (!m.locked && !m.watchOnly && info.keyPriv) = pv
+    generalize hkt : keyToManaged m sc acct e.br e.idx pv = kt
+    have hlc : loadAndCache d1 m sc (.chain acct e.br e.idx) = .ok (cacheObj kt.1 sc (.chain acct e.br e.idx) kt.2, kt.2) := by
+      unfold loadAndCache
+      simp only [hadr1]
+      unfold chainRowToManaged
+      rw [loadAcct_cached hc]
+      have : acctInfoOf m sc acct = some info := hc
+      simp only [this, hpv, hkt]
+      rfl
+    generalize hm1 : cacheObj kt.1 sc (.chain acct e.br e.idx) kt.2 = m1 at hlc
+    have hkt1 : kt.1.heapN = m.heapN + 1 := by rw [← hkt]; exact ktm_heapN ..
+    have hkt2 : ∀ sc', (kt.1.scopes sc').acctInfo = (m.scopes sc').acctInfo := by intro sc'; rw [← hkt]; exact ktm_acctInfo ..
+    have hkt3 : ∀ sc', (kt.1.scopes sc').addrs = (m.scopes sc').addrs := by intro sc'; rw [← hkt]; exact ktm_addrs ..
+    have hkt4 : ∀ id, id < m.heapN → kt.1.heap id = m.heap id := by
+      intro id hid; rw [← hkt, ktm_heap]; simp [Nat.ne_of_lt hid]
+    have hkt5 : kt.1.syncedTo = m.syncedTo := by rw [← hkt]; exact ktm_synced ..
+    have hkt6 : Scal kt.1 = Scal m := by rw [← hkt]; exact scal_keyToManaged ..
+    have hc1 : aget (m1.scopes sc).acctInfo acct = some info := by
+      subst hm1; simp only [cacheObj, Mem.updScope, if_true]; rw [hkt2]; exact hc
+    obtain ⟨d2, m2, q1, q2, q3, q4, q5, q6, q7, q8, q9⟩ :=
+      ih d1 m1 info (bumpRow row e.br e.idx) hc1 hrow1 (fun e' he' => hes e' (List.mem_cons_of_mem _ he'))
+    refine ⟨d2, m2, ?_, ?_, ?_, ?_, ?_, ?_, ?_, ?_, ?_⟩
+    · simp only [putAndLoad, hea, hp, hlc]; exact q1
+    · simp only [putAll, hea, hp]; exact q2
+    · intro sc'; rw [q3]; subst hm1; simp only [cacheObj, Mem.updScope]; split <;> simp [hkt2]
+    · intro id hid
+      rw [q4 id (by subst hm1; simp only [cacheObj, Mem.updScope, hkt1]; omega)]
+      subst hm1
+      simp only [cacheObj, Mem.updScope]; exact hkt4 id hid
+    · have : m.heapN ≤ m1.heapN := by subst hm1; simp only [cacheObj, Mem.updScope, hkt1]; omega
+      omega
+    · rw [q6]; subst hm1; simp [cacheObj, Mem.updScope, hkt5]
+    · rw [q7]; subst hm1; simp only [cacheObj]; rw [scal_updScope, hkt6]
+    · intro sc' hne; rw [q8 sc' hne]; subst hm1; simp [cacheObj, Mem.updScope, hne, hkt3]
+    · intro k hk
+      have hk' : ¬ ∃ e' ∈ es, k = .chain e'.acct e'.br e'.idx := fun ⟨e', he', h⟩ => hk ⟨e', List.mem_cons_of_mem _ he', h⟩
+      rw [q9 k hk']
+      subst hm1
+      simp only [cacheObj, Mem.updScope, if_true]
+      have hne : k ≠ .chain acct e.br e.idx := by
+        intro h; exact hk ⟨e, List.mem_cons_self, by rw [hea]; exact h⟩
+      rw [aget_aset_ne _ _ _ _ hne, hkt3]
+
+/-- the f13 part of the OnCommit closure: wipes clear-text flags only -/
+def pendWipe (cfg : Cfg) (m : Mem) (p : Pend) : Mem :=
+  if cfg.f13 && m.locked then
+    { m with heap := fun id =>
+        if p.infos.any (fun e => e.obj == id) && (m.heap id).kind == .managed then { m.heap id with ct := false }
+        else m.heap id }
+  else m
+
+theorem pendWipe_facts (cfg : Cfg) (m : Mem) (p : Pend) :
+    (pendWipe cfg m p).scopes = m.scopes ∧ (pendWipe cfg m p).heapN = m.heapN ∧
+    (pendWipe cfg m p).syncedTo = m.syncedTo ∧ (pendWipe cfg m p).watchOnly = m.watchOnly ∧
+    (∀ id, ((pendWipe cfg m p).heap id).key = (m.heap id).key ∧ ((pendWipe cfg m p).heap id).acct = (m.heap id).acct) := by
+  unfold pendWipe
+  split
+  · refine ⟨rfl, rfl, rfl, rfl, fun id => ?_⟩
+    dsimp only; split <;> exact ⟨rfl, rfl⟩
+  · exact ⟨rfl, rfl, rfl, rfl, fun _ => ⟨rfl, rfl⟩⟩
+
+theorem runPend_eq (cfg : Cfg) (m : Mem) (p : Pend) :
+    runPend cfg m p =
+      match p.infos.getLast?, acctInfoOf (p.infos.foldl (cacheNew p.scope p.watchOnly) (pendWipe cfg m p)) p.scope p.acct with
+      | some last, some ai =>
+        (p.infos.foldl (cacheNew p.scope p.watchOnly) (pendWipe cfg m p)).updScope p.scope fun s =>
+          { s with acctInfo := aset s.acctInfo p.acct (setNext ai p.internal p.nextIdx last.obj) }
+      | _, _ => p.infos.foldl (cacheNew p.scope p.watchOnly) (pendWipe cfg m p) := rfl
+
+theorem good_next {d : Disk} {m : Mem} (cfg : Cfg) (hg : Good d m) (hw : DiskWF d) (sc acct n : Nat)
+    (internal : Bool) :
+    let r := nextAddresses d m sc acct n internal
+    (∀ e, r.res = .error e → r.pend = none ∧ Good d r.mem) ∧
+    (∀ l, r.res = .ok l → ∃ p, r.pend = some p ∧ Good r.disk (runPend cfg r.mem p) ∧ DiskWF r.disk) := by
+  unfold nextAddresses
+  cases hl : loadAcct d m sc acct with
+  | error e => exact ⟨fun _ _ => ⟨rfl, hg⟩, fun l h => by simp at h⟩
+  | ok m1 =>
+    have hf := loadAcct_good hg hl
+    obtain ⟨ai, row, hc, hr, hok⟩ := hf.cached
+    have hai : acctInfoOf m1 sc acct = some ai := hc
+    obtain ⟨hrow0, _⟩ := acctAns_ok_row hr
+    simp only [hai]
+    generalize hwo : (m1.watchOnly || !ai.hasEnc) = w
+    generalize hpv : (!m1.locked && !w) = pv
+    split
+    · exact ⟨fun _ _ => ⟨rfl, hf.good⟩, fun l h => by simp at h⟩
+    · split
+      · exact ⟨fun _ _ => ⟨rfl, hf.good⟩, fun l h => by simp at h⟩
+      · obtain ⟨k1, k2, k3, k4, k5, k6, k7⟩ := mkAddrs_spec acct (brOf internal) pv n (nextOf ai internal) m1
+        have gr := good_mkAddrs hf.good acct (brOf internal) pv (nextOf ai internal) n
+        generalize hr' : mkAddrs m1 acct (brOf internal) pv (nextOf ai internal) n = r at *
+        have hc' : aget (r.1.scopes sc).acctInfo acct = some ai := by rw [k1]; exact hc
+        obtain ⟨d2, m2, q1, q2, q3, q4, q5, q6, q7, q8, q9⟩ :=
+          putAndLoad_spec sc acct r.2 d r.1 ai row hc' hrow0 (fun e he => (k7.acct_eq e he).1)
+        simp only [q1]
+        refine ⟨fun e h => by simp at h, fun l _ => ⟨_, rfl, ?_⟩⟩
+        generalize hp : (⟨sc, acct, internal, nextOf ai internal + n, r.2, w⟩ : Pend) = p
+        have hp1 : p.infos = r.2 := by rw [← hp]
+        have hp2 : p.scope = sc := by rw [← hp]
+        have hp3 : p.acct = acct := by rw [← hp]
+        have hp4 : p.internal = internal := by rw [← hp]
+        have hp5 : p.nextIdx = nextOf ai internal + n := by rw [← hp]
+        have hp6 : p.watchOnly = w := by rw [← hp]
+        obtain ⟨w1, w2, w3, w4, w5⟩ := pendWipe_facts cfg m2 p
+        generalize hM0 : pendWipe cfg m2 p = M0 at *
+        -- ghost base: the final heap with the caches as they were before the loop
+        have hExt : Ext r.1 { M0 with scopes := r.1.scopes } :=
+          ⟨by show r.1.heapN ≤ M0.heapN; rw [w2]; exact q5,
+           fun id hid => by
+             show (M0.heap id).key = _ ∧ (M0.heap id).acct = _
+             rw [(w5 id).1, (w5 id).2, q4 id hid]; exact ⟨rfl, rfl⟩,
+           by show M0.syncedTo = _; rw [w3, q6],
+           by show M0.watchOnly = _; rw [w4]; exact congrArg (·.2.1) q7⟩
+        have gG : Good d { M0 with scopes := r.1.scopes } :=
+          good_ext gr hExt (fun _ _ _ h => h) (fun _ _ ai' h => Or.inl ⟨ai', h, rfl⟩)
+        have hcsG : Consec ({ M0 with scopes := r.1.scopes } : Mem).heap ({ M0 with scopes := r.1.scopes } : Mem).heapN acct
+            (brOf internal) (nextOf ai internal) r.2 :=
+          k7.mono hExt.heapN hExt.heap
+        obtain ⟨d2', hp', g2, wf2⟩ := good_issueAll sc acct internal r.2 gG hw hc' hr hcsG
+        rw [q2] at hp'; cases hp'
+        refine ⟨?_, wf2⟩
+        rw [runPend_eq, hM0, hp1, hp2, hp3, hp4, hp5, hp6]
+        obtain ⟨c1, c2, c3, c4, c5, c6, c7⟩ := cacheNew_spec sc w r.2 M0
+        have haiF : acctInfoOf (r.2.foldl (cacheNew sc w) M0) sc acct = some ai := by
+          unfold acctInfoOf; rw [c6, w1, q3, hc']
+        cases hlast : r.2.getLast? with
+        | none =>
+          have hnil : r.2 = [] := by
+            cases hh : r.2 with
+            | nil => rfl
+            | cons a t => rw [hh] at hlast; simp [List.getLast?_cons] at hlast
+          simp only
+          rw [hnil] at g2 q9 ⊢
+          simp only [List.foldl, issueAll] at g2 ⊢
+          exact good_of_aget_eq g2 (fun sc' a => by rw [w1, q3]) (fun sc' k => by
+              by_cases hsc : sc' = sc
+              · subst hsc; rw [w1]; exact q9 k (by simp)
+              · rw [w1, q8 sc' hsc]) rfl rfl rfl rfl
+        | some last =>
+          simp only [haiF]
+          obtain ⟨e1, e2, e3, e4, e5, e6⟩ := real_eq_ghost sc acct internal w r.2 M0 { M0 with scopes := r.1.scopes } ai
+            last hlast hcsG (nextOf ai internal + n) (by rw [k5]) rfl rfl rfl rfl
+            (fun sc' => by show (M0.scopes sc').acctInfo = _; rw [w1, q3])
+            (fun sc' hne => by show (M0.scopes sc').addrs = _; rw [w1, q8 sc' hne])
+            (fun k hk => by show aget (M0.scopes sc).addrs k = _; rw [w1]; exact q9 k hk)
+          exact good_of_aget_eq g2 e1 e2 e3 e4 e5 e6
 
 end AddrLock
